@@ -12,7 +12,9 @@ def run(tier, seed):
     ctx.invariants = ["MergeLaws (HistPool)", "MergeLaws (HistND)", "RefusalIsNoOp", "Independence", "SourceUntouched"]
     cfg = "MC_HistPool_c10q" if tier == "quick" else "MC_HistPool_c10t"
     emb = [("dyadic", 0), ("ulp", 1)] if tier == "quick" else [("dyadic", 0), ("ulp", 1), ("decimal", 0)]
-    run_pool(ctx, cfg, ["New", "Merge", "MergeRefused", "MergeFracRefused", "MergeMinFreq"], FULL_VIEW, emb)
+    # contents assigned through the public setters come in as well; the C10 view leaves dtype / statistics to C13 / C14
+    view = FULL_VIEW - {"dtype", "stats"}
+    run_pool(ctx, cfg, ["New", "Merge", "MergeRefused", "MergeFracRefused", "MergeMinFreq", "SetFreqHalf"], view, emb)
     nd_part(ctx, tier)
     ctx.assumptions = ["for min_frequency the statement fixes no particular grouping: the spec step is nondeterministic over all "
                        "coarsenings into runs of adjacent bins and the code must produce one of them (refinement)"]
